@@ -1,3 +1,6 @@
+\* development aid, not run by the check: WITHOUT the Known exceptions the design model violates XmlEq;
+\* TLC stops at the first design-level counterexample (<a> </a> under KeepWhitespace), which shows that the
+\* exceptions of DesignRefinesInfoset are not vacuous.
 SPECIFICATION Spec
 CONSTANTS MaxLen = 5
 EmitMod = 1
